@@ -62,6 +62,11 @@ structure Cfg where
   /-- the names generated for a try-interrupt statement (`_Scenic_interrupt_*`) are not declared
       `nonlocal` in the enclosing block, so a nested statement may have any number of handlers -/
   nestedNames : Bool
+  /-- runTryInterrupt closes the blocks that are still suspended when it is left, in a `finally` (so also when it
+      is left by an exception); otherwise their finalisation -- which stops their sub-behaviours -- is left to the
+      garbage collector: immediate when the statement concludes (reference counting), but *after the simulation*
+      when it is left by an exception, whose traceback keeps the frames alive -/
+  closeBlocks : Bool
   deriving DecidableEq, Repr, Inhabited
 
 /-- The configuration the property theorems ask for. -/
@@ -69,7 +74,7 @@ def Cfg.spec : Cfg :=
   { condsReversed := true, handlersReversed := true, useEnabled := true, useRunning := true,
     firstWins := true, finishedContinues := true, tiCheck := true, tiCheckSkipsSub := true,
     checkAfterInvoke := true, checkBeforeInvoke := false, startPre := true, startInv := true,
-    stopInFinally := true, nestedFlow := true, nestedNames := true }
+    stopInFinally := true, nestedFlow := true, nestedNames := true, closeBlocks := true }
 
 /-! ## Surface syntax (the interrupt fragment) -/
 
@@ -395,6 +400,10 @@ def Task.subs : Task → List Nat
 def stopsOf (cfg : Cfg) (subs : List Nat) : List Ev :=
   if cfg.stopInFinally then subs.map Ev.sstop else []
 
+/-- stops caused by the `finally` of runTryInterrupt when the statement is left by an exception -/
+def closeStops (cfg : Cfg) (subs : List Nat) : List Ev :=
+  if cfg.closeBlocks then stopsOf cfg subs else []
+
 def blkActive (cfg : Cfg) (env : Env) (b : Blk K) : Bool :=
   (cfg.useEnabled && env.cond b.cond) || (cfg.useRunning && b.st.isSome)
 
@@ -451,13 +460,15 @@ def go (cfg : Cfg) (P : Prog) (env : Env) : Nat → Nat → Bool → Task → Ou
       match go cfg P env fuel b false (.resume sub) with
       | .yielded a sub' lg => .yielded a (.atSub b sub' l c) lg
       | .done _ lg => (go cfg P env fuel self inSub (.exec l c)).pre (lg ++ stopsOf cfg [b])
-      | .viol v lg => .viol v lg
+      -- the exception travels through `_invokeInner`, whose `finally` stops the sub-behaviour
+      | .viol v lg => .viol v (lg ++ stopsOf cfg [b])
       | .diverge => .diverge
     | .resume (.atTry kind body hs l c) =>
       let busy := inSub || kindIsDoUntil kind || blkHasSub body || blksHaveSub hs
       if cfg.tiCheck && !(cfg.tiCheckSkipsSub && busy) then
         match invCheck P env self with
-        | (lg, some v) => .viol v lg
+        -- the violation is raised inside runTryInterrupt: its `finally` closes every suspended block
+        | (lg, some v) => .viol v (lg ++ closeStops cfg (blkSubs body ++ blksSubs hs))
         | (lg, none) => (go cfg P env fuel self inSub (.loopTI kind body hs l c)).pre lg
       else go cfg P env fuel self inSub (.loopTI kind body hs l c)
     | .exec [] [] => .done .fin []
@@ -471,14 +482,15 @@ def go (cfg : Cfg) (P : Prog) (env : Env) : Nat → Nat → Bool → Task → Ou
       | (lg, some v) => .viol v lg
       | (lg, none) => (go cfg P env fuel self inSub (.exec l c)).pre lg
     | .exec (.sub b :: l) c =>
+      -- `sub._start(agent)` checks the guards; the sub-behaviour counts as started (`sstart`) when they hold
       match startChecks cfg P env b with
-      | (lg, some v) => .viol v (Ev.sstart b :: lg)
+      | (lg, some v) => .viol v lg
       | (lg, none) =>
         match go cfg P env fuel b false (.exec (getBeh P b).body []) with
-        | .yielded a sub' lg' => .yielded a (.atSub b sub' l c) (Ev.sstart b :: lg ++ lg')
+        | .yielded a sub' lg' => .yielded a (.atSub b sub' l c) (lg ++ Ev.sstart b :: lg')
         | .done _ lg' =>
-          (go cfg P env fuel self inSub (.exec l c)).pre (Ev.sstart b :: lg ++ lg' ++ stopsOf cfg [b])
-        | .viol v lg' => .viol v (Ev.sstart b :: lg ++ lg')
+          (go cfg P env fuel self inSub (.exec l c)).pre (lg ++ Ev.sstart b :: lg' ++ stopsOf cfg [b])
+        | .viol v lg' => .viol v (lg ++ Ev.sstart b :: lg' ++ stopsOf cfg [b])
         | .diverge => .diverge
     | .exec (.forN n body :: l) c => go cfg P env fuel self inSub (.exec [] (.forF n body :: .seq l :: c))
     | .exec (.whileT body :: l) c => go cfg P env fuel self inSub (.exec [] (.whileF body :: .seq l :: c))
@@ -512,7 +524,8 @@ def go (cfg : Cfg) (P : Prog) (env : Env) : Nat → Nat → Bool → Task → Ou
         else
           (go cfg P env fuel self inSub (.exec (afterTry kind f l) c)).pre
             (lg ++ stopsOf cfg (otherSubs body hs i))
-      | .viol v lg => .viol v lg
+      -- an exception raised by the stepped block leaves runTryInterrupt: the `finally` closes the other blocks
+      | .viol v lg => .viol v (lg ++ closeStops cfg (otherSubs body hs i))
       | .diverge => .diverge
 
 /-! ## Whole simulation of one agent -/
